@@ -736,7 +736,10 @@ class TxnScenario:
                                                   "after": "end" if cur is not None else "none"},
                                   f"{owner}: Produce to {tp} written at t={world.now()} outside begin..end")
                     elif tp not in st["acked"]:
-                        self.fail("add-before-produce", {"what": "produce-before-partition-added"},
+                        # discriminating fact: had the coordinator just refused to add this very partition (error reply)?
+                        self.unadded_produce = True
+                        self.fail("add-before-produce", {"what": "produce-before-partition-added",
+                                                         "add_was_refused": tp in st.get("refused", ())},
                                   f"{owner}: Produce to {tp} written at t={world.now()} before the coordinator acknowledged adding "
                                   f"it to the current transaction (acknowledged: {sorted(st['acked'])})")
         elif api == "EndTxn":
@@ -770,6 +773,8 @@ class TxnScenario:
                     codes.append(r["error_code"])
                     if r["error_code"] == 0:
                         good.append((tr["name"], r["partition_index"]))
+                    elif owner in self.own:
+                        self.own[owner].setdefault("refused", set()).add((tr["name"], r["partition_index"]))
             if owner in self.own:
                 self.own[owner]["acked"].update(good)
         elif api == "TxnOffsetCommit":
@@ -838,7 +843,8 @@ class TxnScenario:
                               f"{name}: commit_transaction() returned but offsets {moff} are not committed for group {GROUP}: {self.goffsets}")
                 continue
             if not commit_requested and (seen or offs_seen):
-                self.fail("atomicity", {"what": "uncommitted-visible", "txn": what},
+                self.fail("atomicity", {"what": "uncommitted-visible", "txn": what,
+                                        "after_produce_to_unadded_partition": bool(getattr(self, "unadded_produce", False))},
                           f"{name} ({what}): {seen} {offs_seen} visible to a read-committed reader although commit was never requested "
                           f"for this transaction; visible: {self.visible}")
                 continue
